@@ -75,7 +75,7 @@ LISTED_BY = {
 
 
 def is_listed(strategy, name):
-    if strategy is None or name in ('ok', 'ok_empty'):
+    if strategy is None or name in ('ok', 'ok_empty', 'notif_reply_listed'):
         return False
     kind, what = LISTED_BY[name]
     if kind == 'code':
@@ -107,7 +107,7 @@ def final_matches(cfg, obs, name, k):
     via_send = obs['request'] is not None
     if isinstance(body, BaseException):
         return kind == 'exc' and v is body
-    if name in ('ok', 'ok_empty'):
+    if name in ('ok', 'ok_empty', 'notif_reply_listed'):
         if rk in ('notification', 'notifbatch'):
             return kind == 'ok' and v is None
         if via_send:
@@ -203,6 +203,12 @@ def gen_cases(ctx):
                         drop += ['exc_listed2']
                     yield dict(part='A', kind=kind, request=rk, via='call', drop=drop,
                                client_strategy=dict(attempts=n, codes=codes, excs=excs, backoff=PERIODIC))
+                    if rk in ('notification', 'notifbatch') and n <= 2:
+                        # a lenient (strict=False) client: whatever the server answers to a notification is not an outcome to retry on
+                        yield dict(part='A', kind=kind, request=rk, via='call', drop=drop, strict=False,
+                                   client_strategy=dict(attempts=n, codes=codes, excs=excs, backoff=PERIODIC))
+                        yield dict(part='A', kind=kind, request=rk, via='send', drop=drop, strict=False,
+                                   client_strategy=dict(attempts=n, codes=codes, excs=excs, backoff=PERIODIC))
     # (B) backoff arithmetic (deep, few outcomes)
     for spec in backoff_specs():
         for n in range(0, ctx.pick(4, 7)):
